@@ -145,6 +145,80 @@ def job_random(args):
     return out
 
 
+def call_nn(a, b, dim):
+    """match(.., NN): pair lists (1-based) and squared diffs"""
+    import tracklib.algo.comparison as cmp
+    e = {"ev": "nn", "a": [list(x) for x in a], "b": [list(x) for x in b], "dim": dim, "raised": False, "pairs": [], "diff2": []}
+    try:
+        with core.quiet():
+            m = cmp.match(mk(a, dim), mk(b, dim), mode=cmp.MODE_MATCHING_NN, dim=dim, verbose=False)
+        e["pairs"] = [[int(j) + 1 for j in m["pair", i]] for i in range(m.size())]
+        d2 = [to_int(m["diff", i] ** 2) for i in range(m.size())]
+        e["diff2"] = [-1 if v is None else v for v in d2]
+    except (Exception, SystemExit) as ex:
+        e["raised"] = True
+        e["exc"] = repr(ex)[:80]
+    return e
+
+
+def call_pointwise(a, b, dim, p):
+    """compare(.., POINTWISE, p): p in 0, 1, 2, 99 (= infinity); value (p = 2: its square) as a fraction"""
+    import tracklib.algo.comparison as cmp
+    from fractions import Fraction
+    e = {"ev": "pw", "a": [list(x) for x in a], "b": [list(x) for x in b], "dim": dim, "p": p, "raised": False, "lat": True, "val": [0, 1]}
+    try:
+        with core.quiet():
+            v = cmp.compare(mk(a, dim), mk(b, dim), mode=cmp.MODE_COMPARISON_POINTWISE, p=(float("inf") if p == 99 else p), dim=dim, verbose=False)
+        v = float(v) ** 2 if p == 2 else float(v)
+        f = Fraction(v).limit_denominator(len(a))
+        if abs(float(f) - v) > 1e-9 * max(1.0, abs(v)):
+            e["lat"] = False
+        else:
+            e["val"] = [f.numerator, f.denominator]
+    except (Exception, SystemExit) as ex:
+        e["raised"] = True
+        e["exc"] = repr(ex)[:80]
+    return e
+
+
+def job_compare(args):
+    seed, count = args
+    rnd = random.Random(seed)
+    out = []
+    for _ in range(count):
+        n1, n2 = rnd.randrange(1, 7), rnd.randrange(1, 7)
+        if rnd.random() < 0.5:
+            a = [(rnd.randrange(4),) for _ in range(n1)]; b = [(rnd.randrange(4),) for _ in range(n2)]; dim = 1
+        else:
+            a = [(rnd.randrange(3), rnd.randrange(3)) for _ in range(n1)]; b = [(rnd.randrange(3), rnd.randrange(3)) for _ in range(n2)]; dim = 2
+        out.append(call_nn(a, b, dim))
+        b2 = (b * n1)[:n1]
+        for p in ((0, 1, 2, 99) if dim == 1 else (0, 2)):
+            out.append(call_pointwise(a, b2, dim, p))
+    return out
+
+
+def run_compare(ctx, quick):
+    """growth next to C18: Compare.tla (nearest-neighbour matching, pointwise comparison)"""
+    c = ctx.write_cfg("CMP.cfg", "SPECIFICATION Spec\nCONSTANTS\n  MaxLen = 3\n  Coord = {0, 1, 2}\n  Legacy = FALSE\n  Mode = \"mc\"\nINVARIANT NNAccepted\nCHECK_DEADLOCK FALSE\n")
+    ctx.tlc_mc("Compare", c, label="nearest-neighbour matching: transcription accepted")
+    import multiprocessing as mp
+    events = []
+    with mp.get_context("fork").Pool(16, initializer=core._pool_init, initargs=(None,)) as pool:
+        for r in pool.imap_unordered(job_compare, [(ctx.seed * 79 + k, 40 if quick else 600) for k in range(16)]):
+            events.extend(r)
+    for k, e in enumerate(events):
+        e["id"] = k
+    rej = ctx.tlc_trace("CompareTrace", events, chunks=16, label="NN / pointwise trace")
+    byid = {e["id"]: e for e in events}
+    for i, clause in sorted(rej.items()):
+        e = byid[i]
+        ctx.violation("compare/%s/%s" % (e["ev"], clause), "%s on track1 %s track2 %s -> %s %s: %s" %
+                      ("match(NN)" if e["ev"] == "nn" else "compare(POINTWISE, p=%s)" % e["p"], e["a"], e["b"],
+                       e.get("pairs", e.get("val")), e.get("exc", ""), clause), e)
+    ctx.extra["nn_and_pointwise_records"] = len(events)
+
+
 def mc_cfg(maxlen, legacy=False, invs=("BellmanIsOpt", "OptSymmetric", "AlgoAccepted")):
     return ("SPECIFICATION Spec\nCONSTANTS\n  MaxLen = %d\n  Coord = {0, 1, 2}\n  Legacy = %s\n  Mode = \"mc\"\n" % (maxlen, "TRUE" if legacy else "FALSE")
             + "".join("INVARIANT %s\n" % i for i in invs) + "CHECK_DEADLOCK FALSE\n")
@@ -210,3 +284,4 @@ def run(ctx):
     for e in events:
         if e["ev"] == "match" and len(e["a"]) >= 4 and len(e["b"]) >= 3 and e["id"] not in rej:
             ctx.sample({k: e[k] for k in ("how", "a", "b", "p", "dim", "score", "nb", "links")}, limit=2)
+    run_compare(ctx, quick)
